@@ -297,6 +297,35 @@ static void prep_fn(void* p, int task, TaskCtx* t) {
 
 static bool g_static_monitor = false;
 
+// where a monitored byte lives (rt_static_diff's encoding)
+static std::string where_of(int64_t off) {
+  char b[160];
+  if (off >= ((int64_t)1 << 41)) snprintf(b, sizeof b, "a heap block that outlived every object of an earlier execution (arena offset 0x%" PRIx64 ": reachable only through library-owned static state)", (uint64_t)(off - ((int64_t)1 << 41)));
+  else if (off >= ((int64_t)1 << 40)) snprintf(b, sizeof b, "a heap block that library code allocated before main() (block #%" PRId64 ")", off - ((int64_t)1 << 40));
+  else snprintf(b, sizeof b, "library static storage at offset 0x%" PRIx64 " of libclipsim.so", (uint64_t)off);
+  return b;
+}
+
+// The same plan with every input nudged (paths translated by a few units, real-valued parameters scaled by 33/32): another
+// legal input of the same shape and cost. A table that is built once does not care; a cache keyed by the inputs writes again.
+static Plan perturb_plan(const Plan& pl) {
+  Plan q = pl; q.faults.clear(); q.sched.clear();
+  const int64_t LIM = (int64_t)1 << 61;
+  for (Op& o : q.ops) {
+    for (int k = 0; k < 3; ++k) {
+      if (o.hasP[k]) {
+        int64_t hx = INT64_MIN, ly = INT64_MAX;
+        for (const PPath& p : o.P[k]) for (const PPt& c : p) { hx = std::max(hx, c.x); ly = std::min(ly, c.y); }
+        int64_t dx = hx > LIM ? -3 : 3, dy = ly < -LIM ? 2 : -2;
+        for (PPath& p : o.P[k]) for (PPt& c : p) { c.x += dx; c.y += dy; }
+      }
+      if (o.hasD[k]) for (auto& p : o.D[k]) for (auto& c : p) { c.x += 1.0; c.y -= 0.5; }
+    }
+    for (double& d : o.d) d *= 1.03125;
+  }
+  return q;
+}
+
 static bool case_c14(const Plan& pl0, Stats& st, Violation& v) {
   Plan pl = pl0;
   RunCtl ctl; ctl.env = pl.env;
@@ -361,17 +390,42 @@ static bool case_c14(const Plan& pl0, Stats& st, Violation& v) {
     // detector B: static storage written by library code
     if (!cc.monitor_static) return false;
     if (cc.static_diff_off < 0) { if (rep == 0) return false; break; }   // rep 1 without a change: the write of rep 0 was a one-time write
-    char b[240];
+    char b[480];
     if (rep == 0) { st.static_rebaselined += cc.rebaselined; first_unguarded = cc.unguarded_off; first_exp = exp; continue; }   // changed once: execute the same plan again
     // it changed again: mutable state outside caller-owned objects, however it is synchronised
-    snprintf(b, sizeof b, "library static storage at offset 0x%" PRIx64 " of libclipsim.so changes on every execution (mutable state outside caller-owned objects)", (uint64_t)cc.static_diff_off);
+    snprintf(b, sizeof b, "%s changes on every execution (mutable state outside caller-owned objects)", where_of(cc.static_diff_off).c_str());
     v.cls = "static-write"; v.sig = "static-write recurring"; v.detail = b; v.plan = exp; return true;
+  }
+  if (g_static_monitor && first_unguarded >= -1 && !first_exp.ops.empty()) {
+    // written during the first execution, untouched by the identical second one: a table built once - or a cache keyed by
+    // the inputs. A third execution with nudged inputs tells them apart.
+    Plan pp = perturb_plan(pl);
+    sim_status_run(g_cur_run, 8, 0, 0);
+    rt_set_env(env_twin(pl.env) + 2);
+    TaskOut setup; std::vector<TaskOut> outs((size_t)pp.ntasks);
+    WorkShared* ws = work_shared_create(pp, setup, 0);
+    ChooserCtx cc; cc.pl = &pp; cc.rng = Rng(pl.sched_seed ^ 0x5bd1e995); cc.ntasks = pp.ntasks; cc.explicit_sched = false; cc.monitor_static = true;
+    cc.brackets.assign((size_t)pp.ntasks, 0);
+    std::vector<TaskCtx*> ctxs((size_t)pp.ntasks, nullptr); cc.ctxs = ctxs.data();
+    rt_static_snapshot();
+    TaskArg ta{&pp, ws, &outs}; PrepCtx pc{&pp, Fault()};
+    std::vector<SchedSeg> log(4096); size_t nlog = 0; SchedResult sr;
+    rt_run_tasks(pp.ntasks, task_fn, &ta, chooser, &cc, g_budget, log.data(), log.size(), &nlog, &sr, ctxs.data(), prep_fn, &pc);
+    work_shared_destroy(ws);
+    rt_arena_preserve_live();
+    rt_env_release();
+    ++st.evals; st.static_checks += cc.static_checks;
+    if (cc.static_diff_off >= 0) {
+      char b[400];
+      snprintf(b, sizeof b, "%s was written by the first execution, left alone by an identical second one and written again when the same operations ran on slightly different inputs: a cache keyed by the inputs, i.e. mutable state outside caller-owned objects, however it is synchronised", where_of(cc.static_diff_off).c_str());
+      v.cls = "static-write"; v.sig = "static-write input-dependent"; v.detail = b; v.plan = first_exp; return true;
+    }
   }
   if (first_unguarded >= 0) {
     // written once, and not under a magic-static / call_once / mutex guard: racy lazy initialisation or a correct lock-free
     // one - the driver lets ThreadSanitizer arbitrate
-    char b[240];
-    snprintf(b, sizeof b, "a task wrote library static storage at offset 0x%" PRIx64 " of libclipsim.so once, outside any function-local-static / call_once / mutex guard (unsynchronised lazy initialisation?)", (uint64_t)first_unguarded);
+    char b[480];
+    snprintf(b, sizeof b, "a task wrote %s once, outside any function-local-static / call_once / mutex guard (unsynchronised lazy initialisation?)", where_of(first_unguarded).c_str());
     v.cls = "static-write"; v.sig = "static-write unguarded"; v.detail = b; v.plan = first_exp; return true;
   }
   return false;
